@@ -46,6 +46,8 @@ type Op struct {
 	Client  string
 	IP      string
 	Entries []Entry
+	// base, when set, replaces the instance context as the parent of the request context (client cancellation).
+	base context.Context
 }
 
 // OpResult is what the client got back.
@@ -165,6 +167,9 @@ func (o *Op) Exec(inst *Instance) (res *OpResult) {
 	}()
 	pop := inst.Cfg.Pop
 	ctx := inst.ClientCtx(o.Client, o.IP)
+	if o.base != nil {
+		ctx = ClientCtxFrom(o.base, o.Client, o.IP)
+	}
 	one := func(r *pb.SignResponse, err error) {
 		res.Err = err
 		if r != nil {
